@@ -159,6 +159,43 @@ fn random_no_k1(src: &mut Src, obs: &mut Obs) -> Res {
     }
 }
 
+/// long selector lists (8 .. 70 selectors) on one object / array: results in the order written,
+/// duplicates kept
+fn random_wide_unions(src: &mut Src, obs: &mut Obs) -> Res {
+    let m = *src.pick(&[8usize, 15, 16, 17, 31, 32, 33, 64, 70]);
+    let on_object = src.bool();
+    let doc = if on_object {
+        J::Obj((0..m + 3).map(|i| (format!("k{:02}", i), J::Int(i as i64))).collect())
+    } else {
+        J::Arr((0..m + 3).map(|i| J::Int(i as i64)).collect())
+    };
+    let nsel = m.min(8 + src.below(m));
+    let mut sels = vec![];
+    for _ in 0..nsel {
+        let i = src.below(m + 5);
+        sels.push(if on_object {
+            let name = format!("k{:02}", i);
+            if src.chance(1, 12) {
+                Sel::Wild
+            } else {
+                Sel::Name(if src.bool() { StrLit::with_quote(&name, Quote::S) } else { StrLit::with_quote(&name, Quote::D) })
+            }
+        } else {
+            match src.below(8) {
+                0 => Sel::Slice(Some(i as i64), Some(i as i64 + 2), None, false),
+                1 => Sel::Index(-(i as i64) - 1),
+                _ => Sel::Index(i as i64),
+            }
+        });
+    }
+    // all names (or all indices) most of the time: the shape a "batch lookup" shortcut would take
+    let q = Query { abs: true, segs: vec![Seg { desc: false, sels, dot: false }] };
+    let text = render_plain(&q);
+    obs.label(if on_object { "wide-name-union" } else { "wide-index-union" });
+    // K2 (path text of double-quoted selectors) is irrelevant here: only locations are compared
+    check(&q, &text, &doc.sorted(), obs)
+}
+
 fn box_small(obs: &mut Obs, thorough: bool) -> Res {
     crate::props::c01::small_box(obs, thorough, |q, t, d, o| check(q, t, d, o))
 }
@@ -180,6 +217,7 @@ pub fn prop() -> Prop {
         ],
         subs: vec![
             Sub { name: "box-small", kind: Kind::Exhaustive(box_small) },
+            Sub { name: "random-wide-unions", kind: Kind::Random { f: random_wide_unions, quick: 20_000, thorough: 400_000, len: 300 } },
             Sub {
                 name: "random-order",
                 kind: Kind::Random { f: random_order, quick: 200_000, thorough: 4_000_000, len: 400 },
@@ -191,7 +229,7 @@ pub fn prop() -> Prop {
         ],
         direct: Some(direct),
         selftest: Some(crate::rfc::selftest),
-        fuzz: Some(FuzzSpec { target: "evaldiff", runs: 10000, max_len: 400, tag: "C02", seed_corpus: None }),
+        fuzz: Some(FuzzSpec { target: "evaldiff", runs: 10000, max_len: 1000, tag: "C02", seed_corpus: None }),
         insertion_order_stage: true,
     }
 }
